@@ -1,10 +1,11 @@
 """C12 - export files sit at the documented location with exactly the declared length."""
 import oracles
 from props import runbase
+from props import c03 as _c03
 
 correspondence, search, replay, ASSUMPTIONS = runbase.make(
     "C12", [oracles.c12, oracles.c03],
-    [("std", 260, 2500, {}, None)],
-    "generated worlds incl. unicode / nested names, padding and empty files, torrents sharing names, prior export states absent/shorter/exact/longer; export tree listing after the run vs the documented layout, plus trace validation against the model",
+    [("std", 200, 2000, {}, None), ("odd", 60, 500, {}, _c03.odd_names)],
+    "generated worlds incl. unicode / nested names, odd names (dots with invisible characters, backslashes, components of 255-300 bytes), padding and empty files, torrents sharing names, prior export states absent/shorter/exact/longer; export tree listing after the run vs the documented layout, plus trace validation against the model",
     "target_*_shape (export/<40 hex>/Data/name[/path...]), good_op (SetLen to the declared length; only targets of non-padding segments are ever created or written) proved; tied to the code by trace validation",
     ["distinct info-hashes give distinct 40-digit directory names (C07_hex_injective)"])
